@@ -33,19 +33,19 @@ theorem merge_summary (c s : Clu) : (c.merge s).summary = c.mergedSummary s := b
   simp only [Clu.summary, Clu.merge, Clu.mergedSummary, Summary.mk.injEq, and_true, List.map_map]
   apply List.map_congr_left
   intro x _
-  simp [Function.comp, wrap]
+  simp only [Function.comp]
+  cases minSafe (c.n + s.n) <;> simp [wrap]
 
 theorem mergeClosed_thr (X : ExpTab) (G : Cfg → Prop) (cfg : Cfg) (hG : G cfg) :
     MergeClosed (refPolicy X) (Thr G) cfg := by
   intro c s hc hs ha
   rw [refPolicy_accept] at ha
-  simp only [Bool.and_eq_true, decide_eq_true_eq] at ha
   have hn : (c.merge s).n = c.n + s.n := rfl
   have h2 : 2 ≤ (c.mergedSummary s).n := by
     have : (c.mergedSummary s).n = c.n + s.n := rfl
     have := hc.1; have := hs.1; omega
   refine ⟨by have := hc.1; omega, fun _ => ⟨cfg, hG, ?_⟩⟩
-  obtain ⟨v, hv, hle⟩ := accept_sound cfg.merge X cfg.thr _ _ _ h2 ha.2
+  obtain ⟨v, hv, hle⟩ := accept_sound cfg.merge X cfg.thr _ _ _ h2 ha
   exact ⟨v, by rw [merge_summary]; exact hv, hle⟩
 
 theorem thr_asUnit (G : Cfg → Prop) (c : Clu) (h : Thr G c) : Thr G c.asUnit := h
@@ -95,9 +95,8 @@ theorem C03_never (X : ExpTab) (cfg : Cfg) (hbf : 2 ≤ cfg.bf) (F : Nat) (ops :
   have hmc : ∀ cfg', cfg'.merge.crit = .never → MergeClosed (refPolicy X) (fun c => c.n = 1) cfg' := by
     intro cfg' hc c s _ _ ha
     rw [refPolicy_accept] at ha
-    simp only [Bool.and_eq_true] at ha
     rw [accept_never _ _ _ _ _ _ hc] at ha
-    exact absurd ha.2 (by decide)
+    exact absurd ha (by decide)
   have hrun : ∀ (ops : List Op) (e : Est), (∀ op ∈ ops, op.WF F) →
       (∀ cfg' ∈ inForce X e ops, cfg'.merge.crit = .never) →
       RunOK (refPolicy X) F (fun c => c.n = 1) e ops := by
